@@ -6,6 +6,7 @@ import json
 import subprocess
 from .. import core, tok
 from ..core import Case
+from ..gen import expand_corpus
 
 PROP = "C15"
 
@@ -151,30 +152,42 @@ def reparse(records, workdir):
     """Feed every recorded output to the nightly parser (parser only); returns {index: message}."""
     workdir.mkdir(parents=True, exist_ok=True)
     bad = {}
-    chunk = 400
-    for start in range(0, len(records), chunk):
-        part = records[start:start + chunk]
-        lines = []
-        for k, r in enumerate(part):
-            lines.append("mod __n%d { %s }" % (k, tok.to_rust(r["output"]).replace("\n", " ")))
-        f = workdir / ("reparse_%d.rs" % start)
-        f.write_text("\n".join(lines) + "\n")
-        p = subprocess.run(["rustc", "+nightly", "-Zparse-crate-root-only", "--edition", "2021", "--error-format=json", str(f)],
-                           stdout=subprocess.PIPE, stderr=subprocess.PIPE, text=True, timeout=600)
-        if p.returncode not in (0, 1):
-            raise core.Inconclusive("nightly parser failed to run: %s" % p.stderr[-500:])
-        for line in p.stderr.split("\n"):
-            if not line.startswith("{"):
-                continue
-            try:
-                m = json.loads(line)
-            except json.JSONDecodeError:
-                continue
-            if m.get("level") != "error":
-                continue
-            for sp in m.get("spans", []):
-                if sp.get("is_primary"):
-                    bad.setdefault(start + sp["line_start"] - 1, m.get("message", ""))
+    chunk = 50
+    import concurrent.futures
+
+    def do_chunk(start):
+            part = records[start:start + chunk]
+            lines = ["mod __n%d { %s }" % (k, tok.to_rust(r["output"]).replace("\n", " ")) for k, r in enumerate(part)]
+            off = 0
+            # the parser may give up on a file after its first error: continue behind the failing line until the chunk is done
+            while off < len(lines):
+                f = workdir / ("reparse_%d_%d.rs" % (start, off))
+                f.write_text("\n".join(lines[off:]) + "\n")
+                p = subprocess.run(["rustc", "+nightly", "-Zparse-crate-root-only", "--edition", "2021", "--error-format=json", str(f)],
+                                   stdout=subprocess.PIPE, stderr=subprocess.PIPE, text=True, timeout=600)
+                if p.returncode not in (0, 1):
+                    raise core.Inconclusive("nightly parser failed to run: %s" % p.stderr[-500:])
+                first = None
+                for line in p.stderr.split("\n"):
+                    if not line.startswith("{"):
+                        continue
+                    try:
+                        m = json.loads(line)
+                    except json.JSONDecodeError:
+                        continue
+                    if m.get("level") != "error":
+                        continue
+                    for sp in m.get("spans", []):
+                        if sp.get("is_primary"):
+                            idx = off + sp["line_start"] - 1
+                            bad.setdefault(start + idx, m.get("message", ""))
+                            first = idx if first is None else min(first, idx)
+                if first is None:
+                    break
+                off = max(first + 1, off + 1)
+
+    with concurrent.futures.ThreadPoolExecutor(max_workers=core.NCPU) as ex:
+        list(ex.map(do_chunk, range(0, len(records), chunk)))
     return bad
 
 
@@ -188,6 +201,12 @@ def run(tier, seed):
     n = 3000 if tier == "quick" else 40000
     rng = core.rng_for(PROP, seed)
     cases = gen(n, rng)
+    rich = expand_corpus.corpus("c15r", n // 4, rng)
+    for c in rich:
+        c.meta["family"] = "rich-items"
+        # `unsafe impl` blocks are the pinned known finding K10, exercised only by its pin
+        c.src = c.src.replace("unsafe impl ", "impl ")
+    cases += rich
     pinned = []
     for name, src, msg in PINNED:
         c = Case("c15pin_" + name, src + "\n", meta={"family": "pinned", "message": msg, "pin": name}, run=False, expect="expand")
